@@ -603,3 +603,26 @@ Example ex_ds_topmost_not_closest :
   mux_match [(bytes_of_string "a.example.org.", 1); (ex_example_org, 2); (ex_org, 3)]
             (bytes_of_string "a.example.org.") TypeDS = Ok (Some 3).
 Proof. reflexivity. Qed.
+
+(* The property's reading "DS queries go to the enclosing parent zone" fails on
+   the faithful model: a.example.org. is itself a registered zone, its enclosing
+   parent zone example.org. (the closest registered proper ancestor, at label
+   start 2) and org. are registered, no root pattern, and the DS query is routed
+   to org. (known finding C14/Mux/ds-not-closest-parent). *)
+Lemma ds_closest_parent_refuted_witness :
+  exists (z : mux N) (q : bytes) (off : nat) (h : N),
+    lookup z [46] = None /\ lookup z (canonical_name q) <> None /\
+    (0 < off)%nat /\ label_start (canonical_name q) off /\
+    lookup z (skipn off (canonical_name q)) = Some h /\
+    (forall o, (0 < o < off)%nat -> label_start (canonical_name q) o ->
+               lookup z (skipn o (canonical_name q)) = None) /\
+    mux_match z q TypeDS <> Ok (Some h).
+Proof.
+  exists [(bytes_of_string "a.example.org.", 1); (ex_example_org, 2); (ex_org, 3)],
+         (bytes_of_string "a.example.org."), 2%nat, 2.
+  split; [reflexivity|]. split; [discriminate|]. split; [lia|].
+  split; [right; exists 1%nat; repeat split; cbn; lia|].
+  split; [reflexivity|]. split.
+  - intros o Ho _. assert (o = 1%nat) by lia. subst o. reflexivity.
+  - discriminate.
+Qed.
